@@ -190,4 +190,32 @@ BENIGN = [
             t.0.copy_from_slice(tag_slice);
             t
         };""", """        let tag = AeadTag::<A>::from_bytes(tag_slice)?;""")]),
+    dict(name='b-unrelated-additions', props=['C%02d' % i for i in range(1, 19)],
+         edits=[(UTIL, "/// Writes a u16 to a bytestring in big-endian order. `buf.len()` MUST be 2", """/// Returns the length of the full suite id (new, unrelated helper)
+pub(crate) fn full_suite_id_len() -> usize {
+    core::mem::size_of::<FullSuiteId>()
+}
+
+/// Writes a u16 to a bytestring in big-endian order. `buf.len()` MUST be 2"""),
+                (SETUP, "/// Secret generated in `derive_enc_ctx` and stored in `AeadCtx`", """// A comment block moved here.
+//
+// More comments.
+
+/// Secret generated in `derive_enc_ctx` and stored in `AeadCtx`"""),
+                ("src/lib.rs", "/// Implemented by types that have a fixed-length byte representation", """/// The version of the HPKE specification implemented by this crate (new public constant)
+pub const HPKE_RFC: u32 = 9180;
+
+/// Implemented by types that have a fixed-length byte representation""")]),
+    dict(name='b-reformatted-seal', props=['C%02d' % i for i in range(1, 19)],
+         edits=[(AEAD, """        let msg_len = plaintext.len();
+        let tag_len = AeadTag::<A>::size();
+
+        // Make a buffer that can hold a ciphertext + tag. Copy in the plaintext
+        let mut buf = vec![0u8; msg_len + tag_len];
+        buf[..msg_len].copy_from_slice(plaintext);""", """        let tag_len = AeadTag::<A>::size();
+        let msg_len = plaintext.len();
+        // Make a buffer that can hold a ciphertext + tag. Copy in the plaintext
+        let total = msg_len + tag_len;
+        let mut buf = vec![0u8; total];
+        buf[..msg_len].copy_from_slice(plaintext);""")]),
 ]
